@@ -206,6 +206,7 @@ fn map_reads<N: Nested>(m: &Map<u64, N::V, A>) -> String {
             None => "none".to_string(),
         };
         out += &format!(" g{}={}:{}/{}", k, v, clock(&g.add_clock), clock(&g.rm_clock));
+        out += &format!(" gk{}={}:{}/{}", k, g.val.is_some(), clock(&g.add_clock), clock(&g.rm_clock));
     }
     let keys: Vec<String> = m.keys().map(|c| format!("{}:{}/{}", c.val, clock(&c.add_clock), clock(&c.rm_clock))).collect();
     let vals: Vec<String> = m.values().map(|c| format!("{}:{}/{}", N::read(c.val), clock(&c.add_clock), clock(&c.rm_clock))).collect();
